@@ -71,4 +71,33 @@ def sortedByName (d : List (String × α)) : List (String × α) :=
     let lt := acc.takeWhile (fun q => decide (q.1 < p.1))
     lt ++ p :: acc.drop lt.length) []
 
+/-! ## `_make_dummy_subgraph` — what type inference sees instead of the callback
+
+`StandardNode.infer_output_types_onnx` does not re-trace a subgraph: `_make_dummy_subgraph(node, key, graph)`
+(`_standard.py`) builds a body-less GraphProto *from the stored argument Vars and result Vars' types only*:
+input `i` `__dummy_input{i}` typed like `requested_arguments[i]`, output `i` `__dummy_output{i}` typed like the
+`i`-th value of `requested_results`, fed by `Identity(__dummy_outer_output{i})`. -/
+
+structure DummyGraph (τ : Type) where
+  name : String
+  inputs : List (String × τ)
+  outputs : List (String × τ)
+  valueInfos : List (String × τ)
+  nodes : List (String × String)       -- `Identity`: (input name, output name)
+deriving DecidableEq, Repr, Inhabited
+
+/-- `_make_dummy_subgraph(_node, key, graph)` as a function of the types of `graph.requested_arguments` and of
+    `graph.requested_results.values()` — it has no other input (in particular not `graph._constructor`). -/
+def makeDummy (key : String) (argTys resTys : List τ) : DummyGraph τ :=
+  ⟨"__dummy_" ++ key,
+   named (pyKey "__dummy_input") argTys 0,
+   named (pyKey "__dummy_output") resTys 0,
+   named (pyKey "__dummy_outer_output") resTys 0,
+   (List.range resTys.length).map (fun i => (pyKey "__dummy_outer_output" i, pyKey "__dummy_output" i))⟩
+
+/-- The dummy of the graph `subgraph(types, fun)` returned, `resTys` = types of the Vars `fun` returned: the
+    argument types are read off the `in{i}` dict, the result types off the values of the `out{i}` dict. -/
+def dummyOfSubgraph (key : String) (types resTys : List τ) : DummyGraph τ :=
+  makeDummy key ((enumDict "in" types).map (·.2)) ((enumResults "out" resTys).map (·.2))
+
 end SubgraphNames
